@@ -116,6 +116,9 @@ func init() {
 		// read the bitmap off the wire, independently of the library's Bitmap type
 		sa := spec.Args()
 		B, auto, enc := sa[1].List[0].Int(), sa[1].List[1].Bool(), sa[1].List[2].Atom
+		if B == 0 {
+			B = 8 // Length 0 is the default block of 8 bytes
+		}
 		mtiPacked, _ := m.GetField(0).Pack()
 		pos := len(mtiPacked)
 		var bits []int
